@@ -1,39 +1,217 @@
 //! C03 scenario: the real may_queue::mpsc::Queue, k pushers x n values, one consumer mixing
-//! pop (and, with MAYV_OPS=full, bulk_pop / peek / len), starting offset relative to the block boundary.
-//! Oracles on the implementation: every pushed value popped exactly once, per-producer order, nothing invented.
+//! pop (and, with MAYV_OPS=full, bulk_pop / peek / len / is_empty), starting offset relative to the block boundary.
+//!
+//! MAYV_P pushers, MAYV_N values each, MAYV_OFF sequential push+pop pairs by main first (position relative to
+//! the 64-slot block boundary), MAYV_LEAVE values left in the queue when it is dropped.
+//! MAYV_FULL=1: the whole life of the queue is recorded for the full model (Queue::new, the allocator events
+//! blk.alloc / blk.free of the block size class, Queue::drop with the payloads it drops); without it recording
+//! stops before the queue is dropped (the linearisation-core acceptor does not follow the tear-down).
+//! MAYV_ALLOC = fresh (default: a freed block address is never issued again, freed blocks are quarantined) |
+//! reuse (the allocator re-issues the most recently freed block address: ABA on the packed tail word).
+//! MAYV_ABA=1: directed ABA schedule: a pusher is descheduled between its tail load and its CAS while main does
+//! MAYV_ABA_PAIRS (default 256) push+pop pairs; with MAYV_ALLOC=reuse the tail word comes back to the very value
+//! the stale pusher holds (same address, same index, four blocks later) and its CAS succeeds.
+//!
+//! Oracles on the implementation: every pushed value obtained exactly once (pops + what Queue::drop drops),
+//! nothing invented, per-producer order, real-time order of completed pushes, "empty" answers (pop None, empty
+//! bulk_pop, peek None, is_empty) only when no completed push was waiting, len() between the completed pushes at
+//! its call and the started pushes at its return, peek shows what the next pop returns, bulk_pop stays inside
+//! one block, payload drop counter, Queue::drop drops exactly what was left, block accounting of the allocator
+//! shim (every block freed exactly once, none leaked), no hooked access to a freed block (scan of the recorded
+//! trace against the allocator events), nobody hangs (harness).
 use mayv::*;
-use std::sync::atomic::{AtomicUsize, Ordering};
-use std::sync::Arc;
+use std::alloc::{GlobalAlloc, Layout, System};
+use std::collections::{HashMap, HashSet};
+use std::sync::atomic::{AtomicBool, AtomicUsize, Ordering, Ordering::SeqCst};
+use std::sync::{Arc, Mutex};
 
 fn envn(k: &str, d: usize) -> usize {
     std::env::var(k).ok().and_then(|s| s.parse().ok()).unwrap_or(d)
 }
 
+// ---------------------------------------------------------------- allocator shim for the block size class
+const BLK_SIZE: usize = 1088; // BlockNode<Payload>: 64 * (8 + 8) + next + start, align 64
+const BLK_ALIGN: usize = 64;
+const NLIVE: usize = 64;
+static MODE: AtomicUsize = AtomicUsize::new(0); // 0 pass through, 1 fresh (freed blocks are quarantined), 2 reuse (one-element LIFO)
+static LOGGING: AtomicBool = AtomicBool::new(false);
+static FREE1: AtomicUsize = AtomicUsize::new(0);
+static ALLOCS: AtomicUsize = AtomicUsize::new(0);
+static FREES: AtomicUsize = AtomicUsize::new(0);
+static REUSED: AtomicUsize = AtomicUsize::new(0);
+static BADFREE: AtomicUsize = AtomicUsize::new(0);
+#[allow(clippy::declare_interior_mutable_const)]
+const Z: AtomicUsize = AtomicUsize::new(0);
+static LIVE: [AtomicUsize; NLIVE] = [Z; NLIVE];
+struct Shim;
+fn live_add(p: usize) {
+    for s in LIVE.iter() {
+        if s.compare_exchange(0, p, SeqCst, SeqCst).is_ok() {
+            return;
+        }
+    }
+}
+fn live_remove(p: usize) -> bool {
+    for s in LIVE.iter() {
+        if s.compare_exchange(p, 0, SeqCst, SeqCst).is_ok() {
+            return true;
+        }
+    }
+    false
+}
+unsafe impl GlobalAlloc for Shim {
+    unsafe fn alloc(&self, l: Layout) -> *mut u8 {
+        if l.size() == BLK_SIZE && l.align() == BLK_ALIGN {
+            let m = MODE.load(SeqCst);
+            if m != 0 {
+                ALLOCS.fetch_add(1, SeqCst);
+                let mut p = 0usize;
+                if m == 2 {
+                    p = FREE1.swap(0, SeqCst);
+                    if p != 0 {
+                        REUSED.fetch_add(1, SeqCst);
+                    }
+                }
+                if p == 0 {
+                    p = System.alloc(l) as usize;
+                }
+                live_add(p);
+                if LOGGING.load(SeqCst) {
+                    mayv::log(mayv::ctl(), "blk.alloc", 0, p as u64, None);
+                }
+                return p as *mut u8;
+            }
+        }
+        System.alloc(l)
+    }
+    unsafe fn dealloc(&self, p: *mut u8, l: Layout) {
+        if l.size() == BLK_SIZE && l.align() == BLK_ALIGN {
+            let m = MODE.load(SeqCst);
+            if m != 0 {
+                FREES.fetch_add(1, SeqCst);
+                if !live_remove(p as usize) {
+                    // not a block that is currently allocated: double free / wild free; leave the memory alone
+                    BADFREE.fetch_add(1, SeqCst);
+                    return;
+                }
+                if LOGGING.load(SeqCst) {
+                    mayv::log(mayv::ctl(), "blk.free", 0, p as usize as u64, None);
+                }
+                if m == 2 {
+                    let old = FREE1.swap(p as usize, SeqCst);
+                    if old != 0 {
+                        System.dealloc(old as *mut u8, l);
+                    }
+                }
+                // m == 1: quarantined for the rest of the (short) run, so the address cannot come back
+                return;
+            }
+        }
+        System.dealloc(p, l)
+    }
+}
+#[global_allocator]
+static GLOBAL: Shim = Shim;
+
+// ---------------------------------------------------------------- payload
 static DROPS: AtomicUsize = AtomicUsize::new(0);
-static GOT: AtomicUsize = AtomicUsize::new(0);
+static IN_QDROP: AtomicBool = AtomicBool::new(false);
+static QDROPPED: Mutex<Vec<usize>> = Mutex::new(Vec::new());
+static GOTV: Mutex<Vec<usize>> = Mutex::new(Vec::new());
+// pushes started / completed (scenario-side counters, not part of the queue, not hooked) and a logical clock
+static STARTED: AtomicUsize = AtomicUsize::new(0);
+static DONE: AtomicUsize = AtomicUsize::new(0);
+static STAMP: AtomicUsize = AtomicUsize::new(1);
+static STAMPS: Mutex<Vec<(usize, usize, usize)>> = Mutex::new(Vec::new()); // (value, call stamp, return stamp)
 struct Payload(usize);
 impl Drop for Payload {
     fn drop(&mut self) {
         DROPS.fetch_add(1, Ordering::Relaxed);
+        if IN_QDROP.load(SeqCst) {
+            mayv::log(mayv::ctl(), "val.drop", 0, self.0 as u64, None);
+            QDROPPED.lock().unwrap().push(self.0);
+        }
+    }
+}
+
+fn push_logged(c: &Ctx, q: &may_queue::mpsc::Queue<Payload>, v: usize, counted: bool) {
+    let t0 = STAMP.fetch_add(1, SeqCst);
+    if counted {
+        STARTED.fetch_add(1, SeqCst);
+    }
+    c.log("push.call", 0, v as u64, None);
+    q.push(Payload(v));
+    c.log("push.ret", 0, 0, None);
+    if counted {
+        DONE.fetch_add(1, SeqCst);
+    }
+    let t1 = STAMP.fetch_add(1, SeqCst);
+    STAMPS.lock().unwrap().push((v, t0, t1));
+}
+
+/// order oracles on a sequence of values in the order they left the queue
+fn check_order(c: &Ctx, what: &str, seq: &[usize], np: usize, nv: usize, extra: &dyn Fn(usize) -> bool) {
+    let mut seen = HashSet::new();
+    let mut last = vec![0usize; np + 2];
+    for &v in seq {
+        if !seen.insert(v) {
+            c.fail(format!("{what}: value {v} obtained twice"));
+        }
+        let p = v / 1000;
+        if extra(v) {
+            continue;
+        }
+        if p == 0 || p > np || v % 1000 >= nv {
+            c.fail(format!("{what}: value {v} was never pushed"));
+        } else {
+            if v < last[p] {
+                c.fail(format!("{what}: producer {p}: {v} after {}", last[p]));
+            }
+            last[p] = v;
+        }
+    }
+    // real-time order: a push that returned before another one was called leaves the queue first
+    let st: HashMap<usize, (usize, usize)> = STAMPS.lock().unwrap().iter().map(|&(v, a, b)| (v, (a, b))).collect();
+    for i in 0..seq.len() {
+        for j in i + 1..seq.len() {
+            if let (Some(x), Some(y)) = (st.get(&seq[i]), st.get(&seq[j])) {
+                if y.1 < x.0 {
+                    c.fail(format!("{what}: {} left the queue before {} although push({}) had returned before push({}) was called", seq[i], seq[j], seq[j], seq[i]));
+                    return;
+                }
+            }
+        }
     }
 }
 
 fn main() {
     let mut cfg = Config::from_env();
     cfg.sched_files = vec!["may_queue/src/mpsc.rs", "may_queue/src/atomic.rs"];
+    // always recorded in memory: the use-after-free scan below reads the trace (it is written out only with MAYV_TRACE)
+    let want_trace = cfg.record;
+    cfg.record = true;
     let np = envn("MAYV_P", 2);
     let nv = envn("MAYV_N", 6);
     let off = envn("MAYV_OFF", 0);
     let full = std::env::var("MAYV_OPS").map(|s| s == "full").unwrap_or(false);
+    let fullrec = envn("MAYV_FULL", 0) != 0;
     let leave = envn("MAYV_LEAVE", 0); // values left in the queue when it is dropped
+    let reuse = std::env::var("MAYV_ALLOC").map(|s| s == "reuse").unwrap_or(false);
+    let aba = envn("MAYV_ABA", 0) != 0;
+    let aba_pairs = envn("MAYV_ABA_PAIRS", 256);
+    MODE.store(if reuse { 2 } else { 1 }, SeqCst);
     run(cfg, move |ctx| {
+        let _ = want_trace;
+        LOGGING.store(true, SeqCst);
+        let a0 = ALLOCS.load(SeqCst);
         let q = Arc::new(may_queue::mpsc::Queue::<Payload>::new());
+        if ALLOCS.load(SeqCst) != a0 + 2 {
+            ctx.fail(format!("allocator shim: expected two block allocations of {BLK_SIZE} bytes for a new queue, saw {}", ALLOCS.load(SeqCst) - a0));
+        }
         // starting offset: sequential push/pop by main (part of the trace)
         for i in 0..off {
             let v = 100 + i;
-            ctx.log("push.call", 0, v as u64, None);
-            q.push(Payload(v));
-            ctx.log("push.ret", 0, 0, None);
+            push_logged(ctx, &q, v, false);
             ctx.log("pop.call", 0, 0, None);
             let r = q.pop();
             match &r {
@@ -44,6 +222,10 @@ fn main() {
                 ctx.fail(format!("offset phase: popped something else than {v}"));
             }
         }
+        let mut created = off;
+        if aba {
+            created += aba_phase(ctx, &q, off, aba_pairs);
+        }
         let mut hs = vec![];
         for p in 0..np {
             let q = q.clone();
@@ -51,15 +233,14 @@ fn main() {
                 let c = mayv::ctx();
                 for i in 0..nv {
                     let v = (p + 1) * 1000 + i;
-                    c.log("push.call", 0, v as u64, None);
-                    q.push(Payload(v));
-                    c.log("push.ret", 0, 0, None);
+                    push_logged(&c, &q, v, true);
                 }
             }));
         }
         let total = np * nv;
         let want = total - leave.min(total);
         let q2 = q.clone();
+        let pos0 = off + if aba { aba_pairs + 1 } else { 0 };
         let cons = ctx.spawn("cons", move || {
             let c = mayv::ctx();
             let mut got: Vec<usize> = vec![];
@@ -67,7 +248,8 @@ fn main() {
             let mut tries = 0usize;
             while got.len() < want && tries < 200_000 {
                 tries += 1;
-                let mode = if full { c.rand() % 4 } else { 0 };
+                let mode = if full { c.rand() % (if fullrec { 5 } else { 4 }) } else { 0 };
+                let done0 = DONE.load(SeqCst);
                 match mode {
                     0 => {
                         c.log("pop.call", 0, 0, None);
@@ -83,6 +265,9 @@ fn main() {
                             }
                             None => {
                                 c.log("pop.ret", 0, 0, None);
+                                if done0 > got.len() {
+                                    c.fail(format!("pop returned None although {} completed pushes were waiting during the whole call", done0 - got.len()));
+                                }
                                 c.yield_now();
                             }
                         }
@@ -90,6 +275,9 @@ fn main() {
                     1 => {
                         c.log("bulk.call", 0, 0, None);
                         let v = q2.bulk_pop();
+                        for (i, p) in v.iter().enumerate() {
+                            c.log("bulk.item", i as u64, p.0 as u64, None);
+                        }
                         c.log("bulk.ret", v.len() as u64, v.first().map(|p| p.0).unwrap_or(0) as u64, None);
                         if let (Some(v0), Some(first)) = (peeked, v.first()) {
                             if v0 != first.0 {
@@ -98,6 +286,12 @@ fn main() {
                         }
                         if !v.is_empty() {
                             peeked = None;
+                        } else if done0 > got.len() {
+                            c.fail(format!("bulk_pop returned nothing although {} completed pushes were waiting during the whole call", done0 - got.len()));
+                        }
+                        let pos = pos0 + got.len();
+                        if v.len() > 64 - pos % 64 {
+                            c.fail(format!("bulk_pop returned {} values from position {pos}: more than the rest of the block", v.len()));
                         }
                         for p in v {
                             got.push(p.0);
@@ -110,8 +304,12 @@ fn main() {
                         if l > total {
                             c.fail(format!("len {l} exceeds everything ever pushed"));
                         }
+                        let started1 = STARTED.load(SeqCst);
+                        if l + got.len() < done0 || l + got.len() > started1 {
+                            c.fail(format!("len {l} outside [{}, {}] = [completed pushes at call, started pushes at return] - popped", done0 - got.len().min(done0), started1 - got.len()));
+                        }
                     }
-                    _ => {
+                    3 => {
                         c.log("peek.call", 0, 0, None);
                         let r = unsafe { q2.peek() }.map(|p| p.0);
                         c.log("peek.ret", r.is_some() as u64, r.unwrap_or(0) as u64, None);
@@ -122,46 +320,183 @@ fn main() {
                                 c.fail(format!("peek showed {v}, which was never pushed"));
                             }
                             peeked = Some(v);
+                        } else if done0 > got.len() {
+                            c.fail(format!("peek returned None although {} completed pushes were waiting", done0 - got.len()));
+                        }
+                    }
+                    _ => {
+                        c.log("empty.call", 0, 0, None);
+                        let e = q2.is_empty();
+                        c.log("empty.ret", 0, e as u64, None);
+                        let started1 = STARTED.load(SeqCst);
+                        if e && done0 > got.len() {
+                            c.fail(format!("is_empty although {} completed pushes were waiting", done0 - got.len()));
+                        }
+                        if !e && started1 <= got.len() {
+                            c.fail("is_empty = false although every push ever started had been popped".to_string());
                         }
                     }
                 }
             }
             // oracles
-            let mut seen = std::collections::HashSet::new();
-            let mut last = vec![0usize; np + 2];
-            for &v in &got {
-                if !seen.insert(v) {
-                    c.fail(format!("value {v} popped twice"));
-                }
-                let p = v / 1000;
-                if p == 0 || p > np || v % 1000 >= nv {
-                    c.fail(format!("value {v} was never pushed"));
-                } else {
-                    if v < last[p] {
-                        c.fail(format!("producer {p}: {v} after {}", last[p]));
-                    }
-                    last[p] = v;
-                }
-            }
+            check_order(&c, "popped", &got, np, nv, &|_| false);
             if got.len() < want || got.len() > total {
                 c.fail(format!("popped {} of {want} values", got.len()));
             }
-            GOT.store(got.len(), Ordering::Relaxed);
+            *GOTV.lock().unwrap() = got;
         });
         for h in hs {
             ctx.join(h);
         }
         ctx.join(cons);
-        ctx.record(false);
+        created += total;
+        if !fullrec {
+            ctx.record(false);
+        }
         let before = DROPS.load(Ordering::Relaxed);
+        ctx.log("drop.call", 0, 0, None);
+        IN_QDROP.store(true, SeqCst);
         drop(q);
+        IN_QDROP.store(false, SeqCst);
+        ctx.log("drop.ret", 0, 0, None);
         let after = DROPS.load(Ordering::Relaxed);
-        let left = total - GOT.load(Ordering::Relaxed);
+        let got = GOTV.lock().unwrap().clone();
+        let left = total - got.len();
         if after - before != left {
             ctx.fail(format!("queue drop released {} payloads, {} were left", after - before, left));
         }
-        if after != off + total {
-            ctx.fail(format!("{} payloads dropped in total, {} were created", after, off + total));
+        if after != created {
+            ctx.fail(format!("{} payloads dropped in total, {} were created", after, created));
+        }
+        // what Queue::drop dropped is exactly what was never popped, once each, in queue order
+        let qd = QDROPPED.lock().unwrap().clone();
+        let gs: HashSet<usize> = got.iter().cloned().collect();
+        for v in &qd {
+            if gs.contains(v) {
+                ctx.fail(format!("Queue::drop dropped {v}, which had been popped"));
+            }
+        }
+        if qd.len() != left {
+            ctx.fail(format!("Queue::drop dropped {} payloads one by one, {} were left", qd.len(), left));
+        }
+        check_order(ctx, "dropped by Queue::drop", &qd, np, nv, &|_| false);
+        // block accounting
+        let (al, fr, bf) = (ALLOCS.load(SeqCst) - a0, FREES.load(SeqCst), BADFREE.load(SeqCst));
+        if bf != 0 {
+            ctx.fail(format!("block accounting: {bf} frees of a block that was not allocated (double free)"));
+        }
+        if al != fr {
+            ctx.fail(format!("block accounting: {al} blocks allocated, {fr} freed"));
+        }
+        LOGGING.store(false, SeqCst);
+        uaf_scan(ctx);
+        if reuse {
+            println!("NOTE reused={}", REUSED.load(SeqCst));
         }
     })
+}
+
+/// every hooked access of mpsc.rs must hit memory that is not inside a freed block (freed = blk.free seen,
+/// no later blk.alloc of the same address)
+fn uaf_scan(ctx: &Ctx) {
+    let g = ctx.ctl.m.lock().unwrap_or_else(|e| e.into_inner());
+    let mut freed: Vec<usize> = vec![];
+    let mut bad: Option<String> = None;
+    for r in g.trace.iter() {
+        match r.loc {
+            None => {
+                if r.kind == "blk.free" {
+                    freed.push(r.val as usize);
+                } else if r.kind == "blk.alloc" {
+                    freed.retain(|a| *a != r.val as usize);
+                }
+            }
+            Some(l) => {
+                if !l.file().ends_with("may_queue/src/mpsc.rs") {
+                    continue;
+                }
+                if let Some(a) = freed.iter().find(|a| r.obj >= **a && r.obj < **a + BLK_SIZE) {
+                    bad = Some(format!(
+                        "use after free: {} at {}:{}:{} by thread {} touches offset {} of the freed block {:#x}",
+                        r.kind,
+                        l.file(),
+                        l.line(),
+                        l.column(),
+                        r.tid,
+                        r.obj - *a,
+                        a
+                    ));
+                    break;
+                }
+            }
+        }
+    }
+    drop(g);
+    if let Some(b) = bad {
+        ctx.fail(b);
+    }
+}
+
+/// Directed ABA schedule.  A pusher thread loads the tail word and is descheduled right before its CAS (the site is
+/// found in the trace of the offset phase, so no line number is wired in); main then does `pairs` push+pop pairs, which
+/// retire blocks; with the reusing allocator the fifth block of the chain lives at the address of the first one, so
+/// after 4 * 64 pairs the tail word is bit for bit the value the stale pusher holds and its CAS succeeds.
+fn aba_phase(ctx: &Ctx, q: &Arc<may_queue::mpsc::Queue<Payload>>, off: usize, pairs: usize) -> usize {
+    let site = {
+        let g = ctx.ctl.m.lock().unwrap_or_else(|e| e.into_inner());
+        g.trace.iter().find_map(|r| match r.loc {
+            Some(l) if r.kind == "cas" && l.file().ends_with("may_queue/src/mpsc.rs") => Some((l.file().to_string(), l.line(), l.column())),
+            _ => None,
+        })
+    };
+    let (f, l, c) = match site {
+        Some(s) => s,
+        None => {
+            ctx.fail("ABA schedule needs MAYV_OFF >= 1 (the CAS site is taken from the offset phase)".to_string());
+            return 0;
+        }
+    };
+    {
+        let mut g = ctx.ctl.m.lock().unwrap_or_else(|e| e.into_inner());
+        g.stall_at = Some((f, l, c, 1, 3_000_000_000));
+        g.stall_at_hits = 0;
+    }
+    let q1 = q.clone();
+    let stale = ctx.spawn("stale", move || {
+        let c = mayv::ctx();
+        push_logged(&c, &q1, 900, false);
+    });
+    // let the stale pusher run up to its CAS (it is descheduled there for a long virtual time)
+    ctx.sleep_ns(1000);
+    for i in 0..pairs {
+        let v = 300 + i;
+        push_logged(ctx, q, v, false);
+        ctx.log("pop.call", 0, 0, None);
+        let r = q.pop();
+        match &r {
+            Some(p) => ctx.log("pop.ret", 1, p.0 as u64, None),
+            None => ctx.log("pop.ret", 0, 0, None),
+        }
+        if r.map(|p| p.0) != Some(v) {
+            ctx.fail(format!("ABA phase: popped something else than {v}"));
+        }
+    }
+    ctx.join(stale);
+    // how many CAS attempts did the stale pusher need?  exactly one = its stale tail word was accepted
+    let ncas = {
+        let g = ctx.ctl.m.lock().unwrap_or_else(|e| e.into_inner());
+        let tid = g.threads.iter().position(|t| t.name == "stale").unwrap_or(usize::MAX);
+        g.trace.iter().filter(|r| r.tid == tid && r.kind == "cas").count()
+    };
+    println!("NOTE aba_cas_attempts={ncas} pairs={pairs} off={off} reused={}", REUSED.load(SeqCst));
+    ctx.log("pop.call", 0, 0, None);
+    let r = q.pop();
+    match &r {
+        Some(p) => ctx.log("pop.ret", 1, p.0 as u64, None),
+        None => ctx.log("pop.ret", 0, 0, None),
+    }
+    if r.map(|p| p.0) != Some(900) {
+        ctx.fail("ABA phase: the value of the stale pusher was not the next one popped".to_string());
+    }
+    pairs + 1
 }
